@@ -4628,6 +4628,8 @@ impl<'a> Parser<'a> {
     }
 
     fn advance(&mut self) {
+        #[cfg(tsrun_verif)]
+        crate::verif_hooks::parse_tick();
         self.previous = mem::replace(&mut self.current, self.lexer.next_token());
     }
 
